@@ -111,6 +111,39 @@ func deepCopy(x interface{}) (interface{}, error) {
 	return core.Canonicalize(x)
 }
 
+// MaxDepth is the deepest nesting of maps and arrays that a script can
+// emit or return.
+//
+// encoding/json refuses to decode anything nested deeper, so such a
+// value could never be stored or sent.  Its encoder has no limit and
+// overflows the stack - which terminates the process - on a value
+// that is several hundred thousand levels deep, and a script can
+// build one in no time.
+const MaxDepth = 10000
+
+// tooDeep reports whether x (maps and arrays as Export gives them) is
+// nested deeper than the given number of levels.
+func tooDeep(x interface{}, levels int) bool {
+	if levels < 0 {
+		return true
+	}
+	switch vv := x.(type) {
+	case map[string]interface{}:
+		for _, v := range vv {
+			if tooDeep(v, levels-1) {
+				return true
+			}
+		}
+	case []interface{}:
+		for _, v := range vv {
+			if tooDeep(v, levels-1) {
+				return true
+			}
+		}
+	}
+	return false
+}
+
 // Exec implements the Interpreter method of the same name.
 //
 // The following properties are available from the runtime at _.
@@ -188,6 +221,11 @@ func (i *Interpreter) Exec(ctx context.Context, bs match.Bindings, props core.St
 		switch vv := x.(type) {
 		case goja.Value:
 			x = vv.Export()
+		}
+
+		if tooDeep(x, MaxDepth) {
+			// Will end up as a Javascript exception.
+			panic(errors.New("message nested too deeply"))
 		}
 
 		if x, err = core.Canonicalize(x); err != nil {
@@ -357,6 +395,9 @@ func (i *Interpreter) Exec(ctx context.Context, bs match.Bindings, props core.St
 	if err != nil {
 		return nil, err
 	}
+	if tooDeep(x, MaxDepth) {
+		return nil, errors.New("returned bindings nested too deeply")
+	}
 
 	var result match.Bindings
 	switch vv := x.(type) {
@@ -410,6 +451,9 @@ func copyPropValue(x interface{}) interface{} {
 
 // canonicalize is an abomination
 func canonicalize(x interface{}) (interface{}, error) {
+	if tooDeep(x, MaxDepth) {
+		return nil, errors.New("value nested too deeply")
+	}
 	js, err := json.Marshal(&x)
 	if err != nil {
 		return nil, err
